@@ -255,6 +255,26 @@ def check_retrain(run, case):
             kept_before = c06.tree_digest(os.path.join(repo.scratch(), 'Rules', kept))
         except Exception:
             kept_before = None
+        # history: a training run for the same rule name that does not get as far as saving (a list without a single valid password: every line holds a TAB).
+        # The ruleset that is there is still a ruleset: its config lists name the files that exist and the guesser loads it
+        bad = trainer.train(b'pass\tword1\nab\tcd\n\t\n', path, encoding=first['encoding'], coverage=first['coverage'], ngram=first['ngram'], alphabet_size=first['alphabet'],
+                            max_len=first['max_len'])
+        run.ev('retrainings_that_do_not_complete')
+        if not bad.ok:
+            try:
+                disk0 = oracles.Disk(path)
+            except FileNotFoundError as e:
+                run.violation(f'after a training run for the same rule name that did not complete (no valid password in the list), the ruleset names a file that no longer exists: {os.path.basename(os.path.dirname(str(e.filename)))}/{os.path.basename(str(e.filename))}', case); return
+            for letter, (directory, names) in disk0.filelists.items():
+                have = sorted(os.listdir(os.path.join(path, directory))) if os.path.isdir(os.path.join(path, directory)) else []
+                if sorted(names) != have:
+                    run.violation(f'after a training run for the same rule name that did not complete (no valid password in the list), config.ini lists {sorted(names)} for {directory}/ '
+                                  f'but the directory holds {have}', case); return
+            try:
+                monitors.load_pcfg(path, 'x')
+            except Exception as e:
+                run.violation(f'after a training run for the same rule name that did not complete, the guesser can no longer load the ruleset ({type(e).__name__}: {e!s:.100})', case); return
+            run.ev('rulesets_intact_after_a_failed_retraining')
         data = trainlists.render_plain([(p, k) for p, k in second['items']], second['encoding'])
         resB = trainer.train(data, path, encoding=second['encoding'], coverage=second['coverage'], ngram=second['ngram'], alphabet_size=second['alphabet'],
                              max_len=second['max_len'])
